@@ -268,8 +268,8 @@ func c16(ctx *core.Ctx) {
 	defer restful.DefaultRequestContentType("")
 	defer func() { restful.PrettyPrintResponses = true }()
 	ctSpell := map[string][]string{
-		"json": {"application/json", "application/json; charset=utf-8", "application/json;charset=UTF-8", "application/json ; charset=utf-8", " application/json", "application/json;q=1", "application/json; charset=\"utf-8\""},
-		"xml":  {"application/xml", "application/xml; charset=utf-8", "application/xml;charset=UTF-8", "application/xml ; charset=utf-8", " application/xml", "application/xml; charset=\"UTF-8\""},
+		"json": {"application/json", "application/json; charset=utf-8", "application/json;charset=UTF-8", "application/json ; charset=utf-8", " application/json", "application/json;q=1", "application/json; charset=\"utf-8\"", "application/json; alt=application/xml", "application/json;profile=\"application/xml\""},
+		"xml":  {"application/xml", "application/xml; charset=utf-8", "application/xml;charset=UTF-8", "application/xml ; charset=utf-8", " application/xml", "application/xml; charset=\"UTF-8\"", "application/xml; alt=application/json"},
 	}
 	hists := ctx.N(60, 2500)
 	// provider instances live as long as the process: an application switches between the ones it has (A, B, A again)
